@@ -39,6 +39,8 @@ func HostileStrings() []string {
 		strings.Repeat("<é>&", 1300), "q"+strings.Repeat("日本語", 1500),
 		// a real backslash before text that looks like an escape sequence of the template language or of JavaScript
 		"\\u0041", "\\n", "a\\u2028b", "\\\\u00e9", "\\'", "\\t\\u0062", "\\x41", "\\u004", "\\\\", "\\\\\\n", "\\0", "\\u{41}", "\\\r", "$\\u0024{",
+		// a NUL (and other control characters) directly before a digit: "\\0" + "7" reads as an octal escape in JavaScript
+		"\x000", "\x007", "a\x0012b", "\x009", "\x0101", "\x1b[0m", "\x0800",
 		"null", "true", "0", "-1", "1e3", "{$x}", "{", "}", "{{", "/*", "//", "\x00\x01\x02", "a\x00b", "\xff\xfe", "\xc3\x28", "\xe2\x82", "ok\xf0\x9f\x98",
 	)
 	hostileStrings = out
